@@ -181,6 +181,18 @@ def h_flag(harnesses, name, flag):
     return False
 
 
+def native_verdict(out, test_name, timed_out=False):
+    """Outcome of the native run of one playback test: 'failed' | 'passed' | 'unknown'.
+    (`cargo kani playback` also runs doctests, whose build failures must not be read as a verdict.)"""
+    if timed_out:
+        return "failed"          # non-termination obligations: the real code did not finish
+    if re.search(r"test \S*" + re.escape(test_name) + r" \.\.\. FAILED", out):
+        return "failed"
+    if re.search(r"test \S*" + re.escape(test_name) + r" \.\.\. ok", out):
+        return "passed"
+    return "unknown"
+
+
 def playback(unit, scratch, harness, log=None, timeout=600):
     """Re-run one failing harness with concrete playback. Returns dict(test_src, test_name, native_output, reproduced)."""
     cmd = ["cargo", "kani", "-p", unit["crate"]] + KANI_FLAGS + list(unit.get("kani_flags", [])) + \
@@ -214,7 +226,7 @@ def playback(unit, scratch, harness, log=None, timeout=600):
     cmd2 += ["--", test_name]
     rc2, out2, to2, dt2 = _run_group(cmd2, scratch, timeout, env=kani_env(), log=log)
     res["native_output"] = out2[-4000:]
-    res["reproduced"] = (rc2 != 0 and ("panicked" in out2 or "FAILED" in out2 or "overflow" in out2)) or to2
+    res["reproduced"] = native_verdict(out2, test_name, to2) == "failed"
     if to2:
         res["native_output"] += "\n[native replay did not terminate within %ds]" % timeout
     return res
